@@ -17,6 +17,8 @@ INF = float("inf")
 AXN = {"x": 0, "y": 1, "z": 2}
 AXC = ["AX", "AY", "AZ"]
 F4_SIG = "safety-inf-where-normal-nan"
+SHIPPED = ["rect-array", "nested-rect-arrays", "universes", "inputbuilder-universes", "inputbuilder-hierarchy",
+           "inputbuilder-bgspheres", "inputbuilder-globalspheres", "five-volumes", "hex-array", "testem3"]
 
 
 def hx(xs):
@@ -249,8 +251,13 @@ def parse_pt(line):
             ty = tok[i]; n = int(tok[i + 1]); i += 2
             faces.append((ty, [pf(t) for t in tok[i:i + n]])); i += n
         levels.append({"universe": univ, "volume": vol, "flag": flag, "pos": pos, "faces": faces})
-    nbad = int(tok[i]); badp = [pf(t) for t in tok[i + 1:i + 4]]
-    return {"safety": safety, "minstep": best, "mindir": bd, "levels": levels, "nbad": nbad, "badp": badp}
+    nbad = int(tok[i]); badp = [pf(t) for t in tok[i + 1:i + 4]]; i += 4
+    nr = int(tok[i]); i += 1
+    radii = [(pf(tok[i + 2 * k]), pf(tok[i + 2 * k + 1])) for k in range(nr)]; i += 2 * nr
+    nl = int(tok[i]); i += 1
+    lsafe = [pf(t) for t in tok[i:i + nl]]
+    return {"safety": safety, "minstep": best, "mindir": bd, "levels": levels, "nbad": nbad, "badp": badp,
+            "with_max_step": radii, "level_safety": lsafe}
 
 
 def nan_normal_faces(levels):
@@ -303,6 +310,25 @@ def run(ctx):
                               libs=["orange", "geocel", "corecel"])
     r = ctx.rng
     geos = [corpus_geometry()] + [gen_geometry(r, npts) for _ in range(ngeo)]
+    # shipped multi-level test geometries (rect arrays, nested arrays, universes, hierarchy)
+    files = [os.path.join(vlib.REPO, "test", "orange", "data", f + ".org.json") for f in SHIPPED]
+    files = [f for f in files if os.path.exists(f)]
+    rc, out = ctx.run_harness(exe, input="".join("file %s\nendgeom\n" % f for f in files))
+    bbl = [l for l in out.splitlines() if l.startswith("geom")]
+    if rc != 0 or len(bbl) != len(files):
+        raise vlib.BuildError("safety harness failed on the shipped geometries rc=%d" % rc, out[-2000:])
+    for f, l in zip(files, bbl):
+        tok = l.split()
+        if tok[1] != "ok":
+            ctx.count("shipped-geometry-rejected")
+            continue
+        bb = [pf(t) for t in tok[2:8]]
+        lo = [max(-60.0, x) for x in bb[:3]]; hi = [min(60.0, x) for x in bb[3:]]
+        pts = [[r.uniform(lo[k], hi[k]) for k in range(3)] for _ in range(120 if quick else 1500)]
+        # points close to grid planes / cell walls: snap one coordinate near a half-integer or integer value
+        for p in pts[::3]:
+            k = r.randrange(3); p[k] = min(hi[k], max(lo[k], round(p[k] * 2) / 2 + r.choice([-1, 1]) * r.choice([1e-3, 0.05, 0.2])))
+        geos.append(("file %s\n" % f, pts))
     inp = []
     for txt, pts in geos:
         inp.append(txt + "".join("pt %s\n" % hx(p) for p in pts) + "endgeom\n")
@@ -366,11 +392,25 @@ def run(ctx):
                 bad = "safety is negative or NaN: %r" % s
             elif m < 1e300 and s > m * (1 + 1e-9) + 1e-12:
                 bad = "safety %r exceeds the distance %r to the next boundary along %r" % (s, m, res["mindir"])
-            elif res["nbad"] > 0:
-                bad = "%d sample point(s) of the safety sphere (r = %r) are in another volume, e.g. %r" % (res["nbad"], s, res["badp"])
+            else:
+                # find_safety(max_step): conservative for every search radius, and at least min(max_step, safety)
+                for ms, rm in res["with_max_step"]:
+                    ctx.count("max_step:" + ("below" if ms < s else "above" if ms > s else "equal"))
+                    if not (rm >= 0):
+                        bad = "find_safety(%r) is negative or NaN: %r" % (ms, rm)
+                    elif m < 1e300 and rm > m * (1 + 1e-9) + 1e-12:
+                        bad = ("find_safety(max_step = %r) = %r exceeds the distance %r to the next boundary along %r "
+                               "(find_safety() = %r, per-level safeties %r)" % (ms, rm, m, res["mindir"], s, res["level_safety"]))
+                    elif rm < min(ms, s) * (1 - 1e-12):
+                        bad = "find_safety(max_step = %r) = %r is smaller than min(max_step, find_safety() = %r)" % (ms, rm, s)
+                    if bad:
+                        break
+            if bad is None and res["nbad"] > 0:
+                bad = ("%d sample point(s) of the sphere of the largest reported safety radius are in another volume, e.g. %r "
+                       "(find_safety() = %r, with max_step: %r)" % (res["nbad"], res["badp"], s, res["with_max_step"][:6]))
             if bad:
                 nanf = nan_normal_faces(res["levels"])
-                sig = F4_SIG if (nanf and s == INF or (nanf and s > m)) else None
+                sig = F4_SIG if (nanf and (s == INF or s > m)) else None
                 ctx.count("non-conservative:" + (sig or "other"))
                 if sig is not None:
                     nf4 += 1
@@ -379,6 +419,7 @@ def run(ctx):
                 ctx.violation("oracle", bad + (" [calc_normal is NaN for face %r]" % (nanf[0],) if nanf else ""),
                               {"geometry": txt, "point": p, "point_hex": [float(x).hex() for x in p], "find_safety": s,
                                "min_find_next_step": m, "direction": res["mindir"], "levels": res["levels"],
+                               "find_safety_with_max_step": res["with_max_step"], "level_safety": res["level_safety"],
                                "nan_normal_faces": nanf}, signature=sig)
                 if sig is None:
                     found = True
@@ -404,9 +445,15 @@ def run(ctx):
         s = res["safety"]
         scale = max([1.0] + [abs(x) for lv in res["levels"] for x in lv["pos"]])
         agree = (mv == s) or (mv != INF and s != INF and abs(mv - s) <= 1e-9 * max(abs(s), abs(mv)) + 1e-10 * scale)
+        if agree:
+            for ms, rm in res["with_max_step"]:
+                if not ((mv == rm) or (mv != INF and rm != INF and abs(mv - rm) <= 1e-9 * max(abs(rm), abs(mv)) + 1e-10 * scale)):
+                    agree = False
+                    s = ("find_safety(max_step=%r)" % ms, rm)
+                    break
         if not agree:
             ndis += 1
-            ctx.violation("correspondence", "model find_safety = %r but implementation = %r" % (mv, s),
+            ctx.violation("correspondence", "model find_safety (= find_safety_max) = %r but implementation = %r" % (mv, s),
                           {"geometry": geos[gi][0], "point": p, "levels": res["levels"], "impl": s, "model": mv,
                            "theorem": "Properties_C11.v is about a model that no longer matches the code"}, no_input=True)
             if ndis > 5:
